@@ -230,7 +230,7 @@ func cmdCheck(args []string) int {
 		}
 	}
 	tGen := time.Since(t0) - tLoad
-	to := 20
+	to := 30
 	if *tier == "thorough" {
 		to = 60
 	}
